@@ -969,6 +969,10 @@ _PURE_METHODS = {"lower", "upper", "strip", "rstrip", "lstrip", "startswith", "e
                  "rpartition", "tobytes", "swapcase", "casefold", "isspace", "isupper", "islower", "expandtabs"}
 
 
+_ITERTOOLS_PURE = {"call:itertools.pairwise", "call:itertools.accumulate", "call:itertools.batched", "call:itertools.islice",
+                   "call:itertools.zip_longest", "call:itertools.product"}
+
+
 def evaluate(t, env, memo=None):
     """env maps terms (Sym / opaque Op) -> python value."""
     if memo is None:
@@ -1142,6 +1146,8 @@ def evaluate(t, env, memo=None):
             if not isinstance(v_, (bytes, bytearray, memoryview, list, tuple, int)):
                 raise CannotEval(repr(t)[:120])
             r = bytes(v_)
+        elif op in ("call:bytearray", "call:bytes", "bytes", "bytearray") and not t.args:
+            r = b""
         elif op == "rangelen" and len(t.args) == 3:
             r = len(range(*[evaluate(a, env, memo) for a in t.args]))
         elif op == "strmul" and len(t.args) == 2:
@@ -1153,6 +1159,19 @@ def evaluate(t, env, memo=None):
             r = list(zip(*[evaluate(a, env, memo) for a in t.args]))
         elif op == "range":
             r = range(*[evaluate(a, env, memo) for a in t.args])
+        elif op in _ITERTOOLS_PURE and t.args and not any(isinstance(a, Op) and a.op == "kv" for a in t.args[1:] if op != "call:itertools.accumulate"):
+            import itertools as _it
+            vals_ = []
+            kw_ = {}
+            for a in t.args:
+                if isinstance(a, Op) and a.op == "kv":
+                    kw_[a.args[0].v] = evaluate(a.args[1], env, memo)
+                else:
+                    vals_.append(evaluate(a, env, memo))
+            for v_ in vals_[:1]:
+                if not isinstance(v_, (list, tuple, bytes, bytearray, str, range, memoryview)):
+                    raise CannotEval(repr(t)[:120])
+            r = list(getattr(_it, op.rsplit(".", 1)[1])(*vals_, **kw_))
         elif op == "ceil" and len(t.args) == 1:
             import math as _math
             r = _math.ceil(evaluate(t.args[0], env, memo))
